@@ -330,6 +330,10 @@ class BDD(dd._abc.BDD[_Ref]):
         """
         d = dict(
             reordering=(self._last_len is not None))
+        for k in kw:
+            if k != 'reordering':
+                raise ValueError(
+                    f'Unknown parameter "{k}"')
         for k, v in kw.items():
             if k == 'reordering':
                 if v:
